@@ -153,3 +153,21 @@ package diagnostic
 //@ prop C13
 //@ ensures one-diagnostic-per-kept-conflict (= (len result) (len (local conflicts)))
 //@ loop 1 invariant one-diagnostic-per-conflict-so-far (and (= (len diagnostics) (+ rangeindex 1)) (<= -1 rangeindex) (< rangeindex (len conflicts)))
+
+//@ -- C13 (group key of a position-less single-assertion conflict): whenever the heuristic key gets a function-name
+//@ -- prefix, that name is the name of a function declared in the conflict's OWN file (same cwd-relative file name) whose
+//@ -- source range contains the conflict's offset - never a name remembered from another conflict or another file.
+//@ define (ownFunc pass c fi di name) (let ((file (idx pass.Pass.Files fi)))
+//@    (and (<= 0 fi) (< fi (len pass.Pass.Files)) (<= 0 di) (< di (len (. file Decls))) (is (idx (. file Decls) di) *ast.FuncDecl)
+//@         (let ((fd (as (idx (. file Decls) di) *ast.FuncDecl)))
+//@           (and (= (call |go.uber.org/nilaway/util/tokenhelper.RelToCwd| (. (posOf pass.Pass.Fset (. file FileStart)) Filename)) (. c position Filename))
+//@                (>= (. c position Offset) (. (posOf pass.Pass.Fset (call |(*go/ast.FuncDecl).Pos| fd)) Offset))
+//@                (<= (. c position Offset) (. (posOf pass.Pass.Fset (call |(*go/ast.FuncDecl).End| fd)) Offset))
+//@                (= name (. fd Name Name))))))
+//@ define (keyPrefixOK pass c key k0) (or (= key k0) (exists ((fi Int) (di Int) (rest Str) (name Str)) (and (ownFunc pass c fi di name) (= key (strcat (strcat name ":") rest)))))
+//@ func groupConflicts
+//@ prop C13
+//@ loop 1 invariant prefix-names-the-conflicts-own-function (keyPrefixOK pass c key (strcat (strcat (. (local p) producerRepr) ";") (. (local p) consumerRepr)))
+//@ loop 2 invariant prefix-names-the-conflicts-own-function (and (keyPrefixOK pass c key (strcat (strcat (. (local p) producerRepr) ";") (. (local p) consumerRepr)))
+//@    (= (call |go.uber.org/nilaway/util/tokenhelper.RelToCwd| (. (posOf pass.Pass.Fset (. (local file) FileStart)) Filename)) (. c position Filename))
+//@    (= (local file) (idx pass.Pass.Files (+ rangeindex@1 1))) (<= -1 rangeindex@1) (< (+ rangeindex@1 1) (len pass.Pass.Files)) (<= -1 rangeindex) (< rangeindex (len (. (local file) Decls))))
